@@ -223,3 +223,6 @@ func vGenRoot() string {
 	}
 	return d
 }
+
+// vTimeOffsetAsset: generated asset whose first VoD segment starts at a non-zero media time.
+func vTimeOffsetAsset(ap string) bool { return strings.HasPrefix(ap, "g_time_offset") }
